@@ -28,7 +28,9 @@ def main():
             sec.pop("reasons", None)
             rpath = os.path.join(HERE, "rules", "reasons", section + ".json")
             sec_reasons = json.load(open(rpath)) if os.path.exists(rpath) else []
-            sec["functions"] = {rp: {k: len(v) for k, v in sorted(kinds.items())} for rp, kinds in sorted(per.items())}
+            kf = {f["key"].split(" ", 1)[1] for f in json.load(open(os.path.join(HERE, "known_findings.json")))["findings"] if " " in f["key"]}
+            sec["functions"] = {rp: {k: len(v) for k, v in sorted(kinds.items()) if "%s#%s" % (rp, k) not in kf} for rp, kinds in sorted(per.items())}
+            sec["functions"] = {rp: ks for rp, ks in sec["functions"].items() if ks}
             n = sum(len(v) for d in per.values() for v in d.values())
             print("%s: %d reachable fns, %d sites in %d fns, %d auto-discharged" % (section, len(seen), n, len(per), len(auto)))
             if "--show" in sys.argv and sys.argv[sys.argv.index("--show") + 1] == section:
